@@ -66,6 +66,7 @@ type Seq struct {
 	bulkHooks   bool // several chunks: file mutations of earlier chunks precede later hooks
 	Hooks       Hooks
 	KnownSample map[string]string
+	NoReopen    bool              // differential attribution for C04: restarts become no-ops
 	Loose       map[string]string // outcomes the model leaves open, keyed by call (compared across configurations by C12)
 }
 
@@ -253,7 +254,9 @@ func (s *Seq) absorbWorld() {
 func (s *Seq) finalChecks() {
 	s.fullSweep("final")
 	// close, reopen and look again: everything accepted must be there
-	s.reopen(true, true)
+	if !s.NoReopen || s.Hooks.Final != nil {
+		s.reopen(true, true)
+	}
 }
 
 // ---------------------------------------------------------------- op exec
@@ -284,9 +287,11 @@ func (s *Seq) exec(op *Op) {
 	case "collect":
 		s.opCollect(op)
 	case "reopen":
-		s.reopen(true, op.Flag)
+		if !s.NoReopen {
+			s.reopen(true, op.Flag)
+		}
 	case "abandon":
-		if !s.Cfg.Async {
+		if !s.Cfg.Async && !s.NoReopen {
 			s.reopen(false, op.Flag)
 		}
 	case "flush":
